@@ -337,6 +337,21 @@ def run(ctx: Ctx) -> int:
             callee_resolves = True
     ok = callee_resolves or (bool(resolves) and all(gpc.can_reach(gpc.cn(resolves), gpc.cn(h), exclude_labels={"e"}) and not gpc.can_reach(gpc.cn(h), gpc.cn(resolves), exclude_labels={"e"}) for h in hs))
     ctx.oblige("C04.b", ok, hs[0], "`env` handed to the subcommand level is the resolved value (None + default_env -> True)" if ok else "`env` reaches handle_subcommands unresolved: with default_env on and no explicit env=True, parse_object / parse_string / parse_path fill the chosen subcommand's keys without its environment variables (APP_FIT__*), while the top-level keys and parse_args do read theirs", fn=pc_, construct="env resolved before the subcommand level")
+    # every parse entry folds defaults AND environment in: the call of _parse_defaults_and_environ is unconditional, or
+    # guarded by a test that lets it run when either source is switched on
+    n_fold_calls = 0
+    for entry in ("parse_args", "parse_object", "parse_string", "parse_env"):
+        fe = ctx.func(f"_core:ArgumentParser.{entry}")
+        for c in [c for c in calls_in(fe) if call_leaf(c) == "_parse_defaults_and_environ"]:
+            n_fold_calls += 1
+            from .util import guard_atoms as _gat2
+
+            tests = [t for t, pol in guard_chain(c, stop=fe) if pol]
+            names_t = {x.id for t in tests for x in ast.walk(t) if isinstance(x, ast.Name)}
+            src_tests = [t for t in tests if {x.id for x in ast.walk(t) if isinstance(x, ast.Name)} & {"defaults", "env"}]
+            ok = not src_tests or all(isinstance(t, ast.BoolOp) and isinstance(t.op, ast.Or) and {"defaults", "env"} <= {x.id for x in ast.walk(t) if isinstance(x, ast.Name)} for t in src_tests)
+            ctx.oblige("C04.b", ok, c, f"{entry} folds defaults / environment in whenever one of them is switched on" if ok else f"{entry} folds defaults / environment in only under `{ast.unparse(src_tests[0])}`: with defaults=False, env=True the environment (APP_SUBCOMMAND, APP_A, the env config) is ignored by this entry while parse_args / parse_object read it", fn=fe, construct=f"{entry} fold guard")
+    ctx.floor("C04.b-fold-calls", n_fold_calls, 4)
     ctx.floor("C04.b-default-env-uses", n_env, 1)
     # a config given on the command line / in the environment is merged as a whole: it is parsed with
     # every subcommand section kept, without applying links, and with the previous config published
